@@ -135,7 +135,8 @@ macro_rules! str_type {
         let other = format!("{}x", $s);
         let flipped: String = $s.chars().map(|c| if c.is_ascii_lowercase() { c.to_ascii_uppercase() } else { c.to_ascii_lowercase() }).collect();
         $ctx.call("== &str");
-        if !(*$v == $s) || *$v == other.as_str() || (flipped != $s && *$v == flipped.as_str()) {
+        let shorter: String = { let mut t = $s.to_string(); t.pop(); t };
+        if !(*$v == $s) || *$v == other.as_str() || (flipped != $s && *$v == flipped.as_str()) || (shorter != $s && *$v == shorter.as_str()) {
             $ctx.fail("C14.eq-str", feats($name, "== &str"), format!("{}: comparison of {} with a string is not plain text equality", $name, show($s.as_bytes())));
         }
     }};
@@ -203,7 +204,8 @@ macro_rules! bytes_type {
         let other = format!("{}x", $s);
         let flipped: String = $s.chars().map(|c| if c.is_ascii_lowercase() { c.to_ascii_uppercase() } else { c.to_ascii_lowercase() }).collect();
         $ctx.call("== &str");
-        if !(*$v == $s) || *$v == other.as_str() || (flipped != $s && *$v == flipped.as_str()) {
+        let shorter: String = { let mut t = $s.to_string(); t.pop(); t };
+        if !(*$v == $s) || *$v == other.as_str() || (flipped != $s && *$v == flipped.as_str()) || (shorter != $s && *$v == shorter.as_str()) {
             $ctx.fail("C14.eq-str", feats($name, "== &str"), format!("{}: comparison of {} with a string is not plain text equality", $name, show($s.as_bytes())));
         }
     }};
@@ -213,6 +215,8 @@ macro_rules! bytes_type {
         let ok = *$v == *$s && *$v == $s && *$v == $s.to_string() && *$v == *$s.as_bytes() && *$v == $s.as_bytes() && $o == *$s && $o == $s && $o == $s.to_string() && $o == *$s.as_bytes();
         let flipped: String = $s.chars().map(|c| if c.is_ascii_lowercase() { c.to_ascii_uppercase() } else { c.to_ascii_lowercase() }).collect();
         let bad = (flipped != $s && (*$v == *flipped.as_str() || *$v == flipped.as_str() || *$v == flipped.clone() || $o == flipped.as_str())) || *$v == *other.as_str() || *$v == other.as_str() || *$v == other.clone() || *$v == *other.as_bytes() || $o == *other.as_str() || $o == other.clone();
+        let shorter: String = { let mut t = $s.to_string(); t.pop(); t };
+        let bad = bad || (shorter != $s && (*$v == *shorter.as_str() || *$v == shorter.as_str() || *$v == shorter.clone() || *$v == *shorter.as_bytes() || *$v == shorter.as_bytes() || $o == *shorter.as_str() || $o == shorter.clone() || $o == *shorter.as_bytes()));
         if !ok || bad {
             $ctx.fail("C14.eq-str", feats($name, "== str/&str/String/[u8]"), format!("{}: comparison of {} with a string is not plain text equality", $name, show($s.as_bytes())));
         }
@@ -228,6 +232,25 @@ macro_rules! bytes_type {
                 }
             }
         } }
+        // arrays that are a strict prefix of the text, and arrays the text is a strict prefix of
+        macro_rules! arr_other_len { ($n:literal) => {
+            let bytes = $s.as_bytes();
+            if bytes.len() > $n {
+                let a = <[u8; $n]>::try_from(&bytes[..$n]).unwrap();
+                $ctx.call("== [u8; N]");
+                if *$v == a || *$v == &a || $o == a {
+                    $ctx.fail("C14.eq-str", feats($name, "== [u8; N]"), format!("{}: {} compares equal to the byte array of its first {} bytes", $name, show(bytes), $n));
+                }
+            } else if bytes.len() < $n {
+                let mut a = [b'a'; $n];
+                a[..bytes.len()].copy_from_slice(bytes);
+                $ctx.call("== [u8; N]");
+                if *$v == a || *$v == &a || $o == a {
+                    $ctx.fail("C14.eq-str", feats($name, "== [u8; N]"), format!("{}: {} compares equal to a longer byte array that starts with it", $name, show(bytes)));
+                }
+            }
+        } }
+        arr_other_len!(0); arr_other_len!(1); arr_other_len!(2); arr_other_len!(3); arr_other_len!(5); arr_other_len!(8); arr_other_len!(13); arr_other_len!(32);
         arr!(0); arr!(1); arr!(2); arr!(3); arr!(4); arr!(5); arr!(6); arr!(7); arr!(8); arr!(12); arr!(16);
     }};
 }
